@@ -1,0 +1,34 @@
+//go:build verif
+
+package store
+
+import (
+	"github.com/ipld/go-storethehash/store/freelist"
+)
+
+// VerifFreeList returns the store's freelist.
+func (s *Store) VerifFreeList() *freelist.FreeList {
+	return s.freelist
+}
+
+// VerifSetFlushRate sets the measured flush rate so that the rate-limiting
+// path of flushTick can be entered deterministically.
+func (s *Store) VerifSetFlushRate(rate float64) {
+	s.rateLk.Lock()
+	s.flushRate = rate
+	s.rateLk.Unlock()
+}
+
+// VerifFlushRate returns the measured flush rate.
+func (s *Store) VerifFlushRate() float64 {
+	s.rateLk.Lock()
+	defer s.rateLk.Unlock()
+	return s.flushRate
+}
+
+// VerifHasFlushNotice reports whether a flush notice channel is registered.
+func (s *Store) VerifHasFlushNotice() bool {
+	s.rateLk.Lock()
+	defer s.rateLk.Unlock()
+	return s.flushNotice != nil
+}
